@@ -2,14 +2,16 @@
 
 ENUM (deviation-bounded) + gfortran/gcc differential.  A template kernel (a stand-alone SUBROUTINE, as in the
 repository's own transpile tests; kinds real32/real64 from iso_fortran_env, derived types in a header module) is
-assembled from *feature blocks*; every combination of <= d blocks (d=1 quick, d=2 thorough) added to the base
-kernel is transpiled with FortranCTransformation + FortranISOCWrapperTransformation (header role for the type /
+assembled from *feature blocks*; every single block (quick) and in addition every pair of *structural* blocks
+(thorough; see STRUCT: the blocks that change declarations, arguments, arrays, loops or substituted names, 39 of
+the 76) added to the base kernel is transpiled with FortranCTransformation + FortranISOCWrapperTransformation (header role for the type /
 variable module, kernel role for the routine) in both wrapper variants (use_c_ptr False / True).
 
 Build of one case (own build step, vf/xform.py has no C tool-chain):
     original     gfortran  tmod.f90 [fmod.f90] kern.f90 zz_driver.F90                      -> run
     transformed  gcc -c kern_c.c (includes the generated *.h);
                  gfortran -DXFORM tmod.f90 [fmod.f90] tmod_fc.F90 kern_fc.F90 zz_driver.F90 kern_c.o -> run
+                 (the original kern.f90 is not linked)
 The driver is harness-owned text (a PROGRAM, never seen by Loki) and is byte-identical in both builds; the only
 difference is the preprocessor symbol XFORM that switches `use kern_fc_mod, only: kern => kern_fc` on, so that
 the same `call kern(...)` reaches the ISO-C wrapper.  It calls the kernel on a grid of 6 input sets (negative and
@@ -36,7 +38,7 @@ Switches = feature blocks, one per branch / shortcut visible in fortran_c.py, fo
   expressions  expr_quot expr_pow_nest expr_unary long_expr comments  (operator printing, sign handling, line wrapping)
   arguments    dt_scalar dt_array1d dt_array2d dt_array_lb assoc_local assoc_dt default_real_arg
                (DeReferenceTrafo, c_struct_typedef / transfer casts, generate_c_header, do_resolve_associates)
-  environment  param_local param_dim module_var module_param elemental
+  environment  param_local param_dim module_var module_param elemental elemental_expr_args
                (inline_constant_parameters, module-variable getters, inline_elemental_functions)
 Scalar INTENT(INOUT)/(OUT), INTENT(IN) by value and a 1-D array loop are in the base kernel.
 
@@ -59,7 +61,7 @@ META = dict(
     engine='enum',
     technique='deviation-bounded exhaustive template enumeration x wrapper variants; gfortran original vs gcc-compiled C '
               'kernel behind the generated ISO-C wrapper, same driver',
-    level_text='all combinations of <= d transpile feature blocks x {use_c_ptr False, True}: generated C compiles with gcc, '
+    level_text='base kernel + every single feature block (+ every pair of structural blocks in thorough) x {use_c_ptr False, True}: generated C compiles with gcc, '
                'generated wrapper with gfortran, and the program prints exactly the original output on 6 input sets '
                '(tolerance 2^-40 / 2^-20 only on transcendental-intrinsic results); exhaustive for d',
     level_note='gfortran 12 -O0 -fcheck=bounds / gcc 12 -O0 are the semantics; exact dyadic reals; original program must build (else HARNESS-ERROR)',
@@ -479,6 +481,12 @@ block('module_param', '''  ie(36) = jpk + i1
       mod='  integer, parameter :: jpk = 5\n  real(kind=real64), parameter :: rpx = 0.25_real64\n')
 block('elemental', '''  e(38) = twice(x) + twice(y) * p
 ''', use='  use fmod, only: twice\n', fmod=True)
+# expression trees built by substitution (no source parentheses to copy): the C06 shapes a/(b*c), a/(b/c), -(-a)**2,
+# a*(b/c) with integers, reached through inline_elemental_functions
+block('elemental_expr_args', '''  e(39) = ratio(x, y * p) + ratio(x, ratio(y, p)) + ratio(x - y, p + p)
+  e(40) = negsq(-y) + negsq(x - y) * ratio(-x, -y)
+  ie(37) = idiv(i1 * 7, i2) * idiv(100, i1 + 8) + i1 * idiv(7, i2)
+''', use='  use fmod, only: ratio, negsq, idiv\n', fmod=True)
 
 FMOD = '''module fmod
   use iso_fortran_env, only: real64
@@ -489,6 +497,21 @@ contains
     real(kind=real64), intent(in) :: v
     twice = v * 2.0_real64 + 1.0_real64
   end function twice
+  elemental function ratio(u, v)
+    real(kind=real64) :: ratio
+    real(kind=real64), intent(in) :: u, v
+    ratio = u / v
+  end function ratio
+  elemental function negsq(v)
+    real(kind=real64) :: negsq
+    real(kind=real64), intent(in) :: v
+    negsq = -v**2
+  end function negsq
+  elemental function idiv(i, j)
+    integer :: idiv
+    integer, intent(in) :: i, j
+    idiv = i / j
+  end function idiv
 end module fmod
 '''
 
@@ -638,11 +661,39 @@ def build_sources(switches):
 XFORMS = [('f2c', dict(use_c_ptr=False)), ('f2c', dict(use_c_ptr=True))]
 
 
-def make_cases(d):
+# Structural switches change something the translation of *other* statements can depend on: declarations and argument
+# lists, array shapes / index transformations (maps keyed by variable over the whole routine), loops and their index
+# variables (shared by the loops that vector-notation resolution creates), associate / parameter / module-variable /
+# elemental substitution.  The remaining switches are statement-local: they add assignments or branches over the fixed
+# scalars and the slots e(:) / ie(:) whose translation is a function of their own expression tree only.
+STRUCT = {
+    'minmax_index',
+    'arr1d_index', 'arr1d_reverse', 'arr2d', 'arr2d_index_arith', 'arr3d_lb', 'arr_int_lb2d', 'arr_real32', 'local_array',
+    'local_array_lb', 'local_array_2d', 'vector_full', 'vector_section', 'vector_lb', 'vector_whole',
+    'loop_index_value', 'loop_neg_step', 'loop_step2', 'loop_var_step', 'loop_after_value', 'loop_zero_trip',
+    'loop_bounds_expr', 'while_loop', 'loop_cycle', 'loop_exit', 'logical_literal',
+    'dt_scalar', 'dt_array1d', 'dt_array2d', 'dt_array_lb', 'assoc_local', 'assoc_dt', 'default_real_arg',
+    'param_local', 'param_dim', 'module_var', 'module_param', 'elemental', 'elemental_expr_args',
+}
+
+
+def switch_sets(d):
+    """every set of <= d switches, smallest first: all single switches, and for two or more switches every
+    combination of *structural* switches (see STRUCT)."""
     names = [k for k in B if k != 'base']
+    assert STRUCT <= set(names), STRUCT - set(names)
+    for dev in deviations({k: [True] for k in names}, min(d, 1)):
+        yield [k for k in names if k in dev]
+    if d >= 2:
+        snames = [k for k in names if k in STRUCT]
+        for dev in deviations({k: [True] for k in snames}, d):
+            if len(dev) >= 2:
+                yield [k for k in snames if k in dev]
+
+
+def make_cases(d):
     cases = []
-    for dev in deviations({k: [True] for k in names}, d):
-        sw = [k for k in names if k in dev]
+    for sw in switch_sets(d):
         sources, driver = build_sources(sw)
         for xf, opts in XFORMS:
             oid = ','.join(f'{k}={v}' for k, v in sorted(opts.items()))
@@ -708,7 +759,9 @@ def compare(a, b):
             if xs is not None and len(xs) == len(ys) and \
                     all(abs(u - v) <= TOL[tag] * max(abs(u), abs(v)) for u, v in zip(xs, ys)):
                 continue
-        return f'first difference at output line {n + 1}: original {x[:400]!r} vs transformed {y[:400]!r}'
+        if len(x) > 160 or len(y) > 160:
+            return f'first difference at output line {n + 1} (tag {tag})'
+        return f'first difference at output line {n + 1}: original {x!r} vs transformed {y!r}'
     return None
 
 
@@ -717,7 +770,7 @@ def _locate(x, y):
     xs, ys = x.split(), y.split()
     for i, (u, v) in enumerate(zip(xs, ys)):
         if u != v:
-            return f'{xs[0]}[{i}]: {u} vs {v}'
+            return f'{xs[0]}({i}): original {u} vs transformed {v}'
     return ''
 
 
@@ -739,7 +792,8 @@ def build_transformed(case, fortran, c, base):
             objs.append(n[:-2] + '.o')
         names = []
         for n, t in case['sources']:
-            names.append(b.write(n, t).name)
+            if n != 'kern.f90':      # the original kernel is not part of the transformed program
+                names.append(b.write(n, t).name)
         order = sorted(fortran, key=lambda f: (0 if not f.startswith('kern') else 1, f))
         for n in order:
             names.append(b.write(n, fortran[n]).name)
@@ -840,6 +894,10 @@ def sigfn(results_by_id):
     def sig(case, r):
         xf = case['id'].split('|', 1)[1]
         fam = case['xform']
+        base = results_by_id.get(f'base|{xf}')
+        if base and base['verdict'] == r['verdict']:
+            # the base kernel itself fails this way: every program containing it inherits the signature
+            return f'{r["verdict"]} block=<base> xform={fam}'
         for sw in case['switches']:
             single = results_by_id.get(f'base+{sw}|{xf}')
             if single and single['verdict'] == r['verdict']:
@@ -864,16 +922,23 @@ def run(ctx):
         for i, r in zip(glist[g], rs):
             results[i] = r
     by_id = {r['id']: r for r in results}
-    xform.summarise(ctx, cases, results, sigfn(by_id))
+    xform.summarise(ctx, cases, results, sigfn(by_id), min_changed=0)
+    nok = sum(1 for r in results if r['verdict'] == 'ok')
+    # vacuity guard; when (nearly) everything fails the violations are the message, not a harness error
+    ctx.require(nok >= len(cases) // 2 or ctx.violations, f'vacuous: only {nok} of {len(cases)} programs were transpiled and agreed')
     ok = [r for r in results if r['verdict'] == 'ok']
     ctx.require(all(r.get('distinct_lines', 0) >= 40 for r in ok), 'vacuous: a program prints fewer than 40 distinct lines')
     nb = len(B) - 1
+    judged = sum(1 for r in results if r['verdict'] in ('ok', 'output-differs', 'xform-run-error', 'xform-compile-error'))
     ctx.cov.update(
-        exhaustive=True, bound=dict(max_blocks=d, blocks=nb, xforms=len(XFORMS), input_sets=6),
+        distinct_nontrivial=judged, agreed=nok,
+        exhaustive=True, bound=dict(max_blocks=d, blocks=nb, structural_blocks=len(STRUCT), xforms=len(XFORMS), input_sets=6),
         programs=len(glist),
-        rule=f'all combinations of <= {d} of {nb} feature blocks added to the base kernel x {len(XFORMS)} wrapper variants '
-             '(use_c_ptr False/True); 6 input sets per run; non-trivial = C kernel + ISO-C wrapper were generated, built with '
-             'gcc/gfortran and the program printed the original output',
+        rule=f'base kernel + every single one of {nb} feature blocks' + (f' + every pair of the {len(STRUCT)} structural blocks'
+                                                                          if d >= 2 else '') +
+             f' x {len(XFORMS)} wrapper variants '
+             '(use_c_ptr False/True); 6 input sets per run; non-trivial = C kernel + ISO-C wrapper were generated and judged by '
+             'building them with gcc/gfortran and comparing the program output (`agreed` = those that printed the original output)',
         samples=[dict(id=cases[0]['id']), dict(id=cases[-1]['id'], text=cases[-1]['sources'][-1][1])],
     )
     ctx.assumptions += ['gfortran -O0 -fcheck=bounds and gcc -O0 define behaviour',
